@@ -670,7 +670,17 @@ def runNumeric (lines : List String) : IO Unit := do
       a := remember a s!"vertex {i} {j} {k} {l} {n1} {n2} {n3}" [v, x, chi0]
       if a.quadratic then
         a := a.bump "wick_vertex_checks"
-        if v.abs > 1.0e-7 * (1.0 + x.abs + chi0.abs) then
+        -- the library documents that Lehmann terms of G with |residue| < 1e-8 are dropped (C01): the disconnected part
+        -- β G G inherits β (|G| δG' + |G'| δG) from the dropped-term budgets δG of the four Green's functions involved
+        let w := specWeights s
+        let (a1, ci) := getRot a (nat! i); let (a2, cj) := getRot a1 (nat! j)
+        let (a3, ck) := getRot a2 (nat! k); let (a4, cl) := getRot a3 (nat! l); a := a4
+        let z1 := iwF s.beta n1.toInt!; let z2 := iwF s.beta n2.toInt!
+        let (_, b13, _) := specG s w ci ck z1; let (_, b24, _) := specG s w cj cl z2
+        let (_, b14, _) := specG s w ci cl z1; let (_, b23, _) := specG s w cj ck z2
+        let gBudget := s.beta * ((if n1 == n3 then g13.abs * b24 + g24.abs * b13 + b13 * b24 else 0.0)
+                                 + (if n2 == n3 then g14.abs * b23 + g23.abs * b14 + b14 * b23 else 0.0))
+        if v.abs > 1.0e-7 * (1.0 + x.abs + chi0.abs) + gBudget then
           a ← fail a "C12" s!"quadratic model: vertex ({i}{j}{k}{l}) at ({n1},{n2},{n3}) = ({v.re},{v.im}) does not vanish (chi = ({x.re},{x.im}))"
     | "o" :: "retained" :: _ :: flags =>
       let s := a.s
